@@ -70,6 +70,7 @@ def run(run, tier):
     esirx.part(run, tier, 'C04', props, per)
     C.extra_props(run, 'C04', props, ['C04esis'])
     from . import discx; discx.part(run, tier, 'C04', props, per)
+    from . import genx; genx.part(run, tier, 'C04', props, per)
     if not props['ok']:
         run.violation('C04/proof', 'Props/C04.v no longer checks: %s' % props['log'][-400:], {'broken': 'coq/Props/C04.v', 'log': props['log']}, no_input=True)
     C.proof_coverage(run, props, total.n, min(len(total.distinct), total.nontrivial),
@@ -79,6 +80,9 @@ def run(run, tier):
 
 
 def replay(rp):
+    if rp['replay'].get('genx'):
+        from . import genx
+        return genx.replay(rp)
     if rp['replay'].get('discx'):
         from . import discx
         return discx.replay(rp)
